@@ -183,7 +183,8 @@ func classifyConc(c concCase, st *concState) string {
 	case "close":
 		// scale-out while Close waits (C24-F1)
 		// (get_closed: the scaled-out Get failed in the factory and puts its slot into the closed channel)
-		if kind == "over_max" || kind == "put_closed" || kind == "get_closed" || kind == "revived" {
+		// (put_full: the slots added during the Close are more than the channel can take back)
+		if kind == "over_max" || kind == "put_closed" || kind == "get_closed" || kind == "revived" || kind == "put_full" {
 			return "C24-F1"
 		}
 	}
